@@ -85,6 +85,22 @@ CHECKS = {
             "real compiler's for all shapes up to 8x8 and versions 5..10.",
             "Trusted: Lean kernel, execPrim for mulw,*,+,divmodw,uncover,dig,cover,swap,pop,!,assert.",
             "DESIGN.md Part II C16"),
+    "C18": ("proof",
+            "Lean 4 proof: every emitted comment line is tokenless for any text, sanitised labels are legal and injective, Comment/Pragma/Nonce are transparent in the code-generation model and the source semantics; base/variant instruction-stream comparison of real outputs with the independent tokeniser; differential execution",
+            "Text-safety theorems are universal over annotation texts; stream identity of real outputs is decided per explored program and "
+            "insertion point (streams from the independent tokeniser, labels alpha-renamed, Nonce pair removed) with every difference "
+            "re-classified (optimiser off, control-flow isomorphism, opcode multiset) and executed on the AVM spec.",
+            "Trusted: TEAL grammar incl. the newline-only line rule, recipe builders, Python-side stream comparison. Five known findings "
+            "(name newline; wrapped literal changes opcode selection; annotation blocks slot optimisation; comment block changes layout; "
+            "long comment hits the recursion limit).",
+            "DESIGN.md Part II C18"),
+    "C19": ("proof",
+            "Lean 4 proof: assignable_sound / assignable_encode / assignable_decode on a line-by-line model of type_spec_is_assignable_to over an ARC-4 specification whose decode∘encode identity is proved; exhaustive pair enumeration against the real function; algosdk encodings under both types",
+            "For every pair of type specs the model accepts, the ARC-4 layouts are equal and every value encodes to the same bytes; the model "
+            "equals the real function on all pairs of a bounded universe (137^2 quick, 815^2 thorough) plus random deep pairs; accepted pairs' "
+            "sampled values are encoded by algosdk under both signatures.",
+            "Trusted: Lean kernel, Arc4.lean (validated against algosdk every run), transcription of the match/isinstance/== logic.",
+            "DESIGN.md Part II C19"),
     "C20": ("exploration",
             "exhaustive enumeration of small control skeletons x placements x versions x options plus random well-typed programs, long and deep programs against the real compiler; outcome-class correspondence with the total Lean code-generation model",
             "The real compiler must answer TEAL or a PyTeal error for every explored program and accept every program that fits the target; "
